@@ -1,4 +1,8 @@
 mod lsp;
+// verification hook (never set in normal builds): lets an out-of-tree harness drive the parser
+// with the in-memory reader the editor integration uses
+#[cfg(rajanmaghera_riscv_analysis_verif)]
+pub use lsp::LSPFileReader as VerifLSPFileReader;
 use lsp::{LSPDiag, LSPFileReader, LSPRVDiagnostic, LSPRVSingleDiagnostic, RVCompletionItem};
 use lsp_types::Diagnostic;
 use riscv_analysis::parser::{CanGetURIString, DirectiveType, ParserNode, RVDocument, RVParser};
